@@ -4,6 +4,7 @@ import (
 	"fmt"
 	"strconv"
 	"strings"
+	"time"
 
 	"github.com/prometheus/prometheus/model/labels"
 	"github.com/prometheus/prometheus/storage/remote"
@@ -56,8 +57,10 @@ var fixedScripts = []fixedScript{
 	{"flush-partial", 3, 6, cat(ap(1, 2, 3, 4), oS, oR, oR, oR, oT)},
 	{"flush-retry-when-full", 2, 2, cat(ap(1, 2, 3), oF, oR, oS, oR, oR)},
 	{"batch-one", 1, 3, cat(ap(1, 2, 3, 4), oR, ap(4), oR, oR, oR, oS, oR)},
-	// the timer fires between the two critical sections of FlushAndShutdown (see notes: finding)
+	// the timer fires between the two critical sections of FlushAndShutdown (regression for the
+	// duplicate send fixed by dca118dfcb)
 	{"flush-timer-duplicate", 3, 3, cat(ap(1, 2), oF, oR, oT, oS, oR)},
+	{"flush-then-timer-then-recv", 2, 4, cat(ap(1, 2, 3), oF, oT, oT, oR, oS, oR)},
 }
 
 type scriptDesc struct {
@@ -100,7 +103,7 @@ func runScript(id int, seed uint64, idx int, fixed *fixedScript, cf *gallina.Cas
 
 	// mirror of the queue's occupancy, used only to choose legal next steps
 	chanLen, batchLen := 0, 0
-	flushed, shut, closedSeen := false, false, false
+	flushed, shut, closedSeen, aborted := false, false, false, false
 	refused, partial, race := false, false, false
 	next := int64(1)
 	var retry []int64 // values whose Append was refused, to be retried in order
@@ -159,15 +162,23 @@ func runScript(id int, seed uint64, idx int, fixed *fixedScript, cf *gallina.Cas
 			obsG = append(obsG, "OBool "+gallina.Bool(again))
 			if !again && batchLen > 0 {
 				chanLen++
+				batchLen = 0 // tryEnqueueingBatch forgets the batch it has handed over
 				flushed = true
 				partial = true
 			}
 		case 's':
 			// only issued when FlushAndShutdown cannot block (channel has room or batch empty)
-			q.FlushAndShutdown(done)
+			ret := make(chan struct{})
+			go func() { q.FlushAndShutdown(done); close(ret) }()
 			opsG = append(opsG, "QShutdown")
 			opsS = append(opsS, "s")
-			obsG = append(obsG, "OUnit")
+			select {
+			case <-ret:
+				obsG = append(obsG, "OUnit")
+			case <-time.After(30 * time.Second): // it spins: report and abandon the script
+				obsG = append(obsG, "OBlock")
+				aborted = true
+			}
 			if batchLen > 0 {
 				chanLen++
 				partial = true
@@ -189,6 +200,10 @@ func runScript(id int, seed uint64, idx int, fixed *fixedScript, cf *gallina.Cas
 			c := r.Intn(100)
 			switch {
 			case c < 55:
+				if flushed { // after tryEnqueueingBatch has handed the batch over only the consumer side runs
+					do(sop{K: 'r'})
+					break
+				}
 				x := next
 				if len(retry) > 0 { // Append's retry loop: the refused sample comes again first
 					x = retry[0]
@@ -202,13 +217,13 @@ func runScript(id int, seed uint64, idx int, fixed *fixedScript, cf *gallina.Cas
 			case c < 90:
 				do(sop{K: 't'})
 			case c < 95:
-				// FlushAndShutdown's retry loop: only when it changes nothing (empty batch or channel full)
-				if batchLen == 0 || chanLen >= nbq {
+				// FlushAndShutdown's first critical section (possibly its retry loop)
+				if len(retry) == 0 {
 					do(sop{K: 'f'})
 				}
 			}
 		}
-		if wantRace && !shut && batchLen > 0 && chanLen < nbq && len(retry) == 0 {
+		if wantRace && !shut && !flushed && batchLen > 0 && chanLen < nbq && len(retry) == 0 {
 			// first half of FlushAndShutdown, runShard consuming, timer on the stale batch, second half
 			do(sop{K: 'f'})
 			for chanLen > 0 {
@@ -224,22 +239,19 @@ func runScript(id int, seed uint64, idx int, fixed *fixedScript, cf *gallina.Cas
 			do(sop{K: 'r'})
 		}
 		do(sop{K: 's'})
-		for i := 0; i < nbq+3 && !closedSeen; i++ {
+		for i := 0; i < nbq+3 && !closedSeen && !aborted; i++ {
 			if r.Chance(1, 5) {
 				do(sop{K: 't'})
 			} else {
 				do(sop{K: 'r'})
 			}
 		}
-		if r.Chance(1, 4) {
+		if r.Chance(1, 4) && !aborted {
 			do(sop{K: 't'}) // Batch() on a closed, empty channel
 		}
 	}
 
-	shape := "script"
-	if race {
-		shape = "flush-timer-duplicate"
-	}
+	shape := "script" // the flush/timer interleaving is a regression case since fix dca118dfcb
 	name := ""
 	if fixed != nil {
 		name = fixed.Name
